@@ -78,3 +78,30 @@ theorem old_config_id_blind (t : Nat) :
   simp [oldSampleConfigId, World.mtime, List.lookup]
 
 end NV.C17
+
+namespace NV.C17
+
+/-! ### 5. open finding: only the direct lists are checked -/
+
+/-- the full-strength reading of "a program it inherits": also programs inherited through a parent.  `parents` gives the
+    inherit list of every program (what the binaries or the sources say) -/
+def NeverStaleTransitive : Prop :=
+  ∀ (w : World) (parents : String → List String) (a b c : String) (mt t : Nat),
+    loadBinary w a = .use → w.mtime (binPath w a) = some mt → b ∈ parents a → c ∈ parents b →
+    w.mtime c = some t → t ≤ mt
+
+/-- a inherits b inherits c; b has no saved binary; c is newer than a's binary: the binary of a is used.
+    (`never_stale` itself is about the files the binary names; this is the statement it does not give.) -/
+theorem indirect_inherit_not_checked : ¬ NeverStaleTransitive := by
+  intro h
+  let bo : String → String := fun n => if n = "a.c" then "B/a" else if n = "b.c" then "B/b" else "B/c"
+  let oo : String → String := fun n => if n = "b.c" then "b" else "?"
+  let w : World := { files := [("B/a", 200), ("a.c", 100), ("b.c", 150), ("c.c", 300)],
+                     bins := [("B/a", { magic := magicId, driverId := driverId, configId := 0,
+                                        includes := [], name := "a.c", inherits := ["b.c"] })],
+                     loaded := ["b"], configId := 0, binOf := bo, objOf := oo }
+  have := h w (fun n => if n = "a.c" then ["b.c"] else if n = "b.c" then ["c.c"] else []) "a.c" "b.c" "c.c" 200 300
+    (by decide) (by decide) (by decide) (by decide) (by decide)
+  omega
+
+end NV.C17
